@@ -5,6 +5,7 @@ agree with the hand-written model the theorems are about.
 import Iota.Gen.B1T6
 import Iota.Tie.Expect
 import Iota.Model.B1T6
+import Iota.Tie.B1T8Code
 
 namespace Iota.Tie.C14
 open Iota
@@ -33,14 +34,14 @@ theorem b1t8_masks : Gen.B1T6.b1t8Masks = [1,2,4,8,16,32,64,128] ∧
 /-- pow and migration import iota.go's copy of b1t6; it is the same code. -/
 theorem iotaGoCopy : Gen.B1T6.iotaGoCopyIdentical = true := by decide
 
+/-- b1t8 `Encode` / `Decode` are not pinned by text any more: they are translated as code and tied to the model for
+all inputs in `Iota/Tie/B1T8Code.lean`. -/
 theorem src :
     Gen.B1T6.src_b1t6_Encode = Expect.B1T6_src_b1t6_Encode ∧
     Gen.B1T6.src_b1t6_EncodeToTrytes = Expect.B1T6_src_b1t6_EncodeToTrytes ∧
     Gen.B1T6.src_b1t6_Decode = Expect.B1T6_src_b1t6_Decode ∧
-    Gen.B1T6.src_b1t6_DecodeTrytes = Expect.B1T6_src_b1t6_DecodeTrytes ∧
-    Gen.B1T6.src_b1t8_Encode = Expect.B1T6_src_b1t8_Encode ∧
-    Gen.B1T6.src_b1t8_Decode = Expect.B1T6_src_b1t8_Decode :=
-  ⟨rfl, rfl, rfl, rfl, rfl, rfl⟩
+    Gen.B1T6.src_b1t6_DecodeTrytes = Expect.B1T6_src_b1t6_DecodeTrytes :=
+  ⟨rfl, rfl, rfl, rfl⟩
 
 /-- everything else the package declares (imports, constants, types, variables, build constraints and the functions not
 pinned one by one) is unchanged too: no declaration of the modelled packages can change without a tie theorem failing. -/
@@ -48,5 +49,24 @@ theorem rest :
     Gen.B1T6.rest_b1t6 = Expect.B1T6_rest_b1t6 ∧
     Gen.B1T6.rest_b1t8 = Expect.B1T6_rest_b1t8 :=
   ⟨rfl, rfl⟩
+
+/-! ### b1t8 `Encode` / `Decode` translated AS CODE (output buffer, reslicing loop, nested loop with early return)
+= the model, for all inputs; `none` = Go run-time panic (destination too short). `trits`/`ofTrits` convert between Go's
+`int8` and the model's `Int` trits, `bv` between `UInt8` and `BitVec 8`. Proofs: `Iota/Tie/B1T8Code.lean`. -/
+open Iota.Tie.Bech32Code (bv) in
+open Iota.Tie.B1T8Code in
+theorem code_b1t8_encode (dst : List (BitVec 8)) (src : List UInt8) :
+    (8 * src.length ≤ dst.length → Gen.B1T6.b1t8.Encode dst (bv src) =
+      some (BitVec.ofNat 64 (8 * src.length), ofTrits (B1T8.encode src) ++ dst.drop (8 * src.length))) ∧
+    (dst.length < 8 * src.length → Gen.B1T6.b1t8.Encode dst (bv src) = none) :=
+  ⟨encode_eq dst src, encode_panics dst src⟩
+open Iota.Tie.Bech32Code (bv) in
+open Iota.Tie.B1T8Code in
+theorem code_b1t8_decode (dst src : List (BitVec 8)) (hlen : src.length < 2 ^ 63) :
+    ((B1T8.decode (trits src)).1.length ≤ dst.length → Gen.B1T6.b1t8.Decode dst src =
+      some (BitVec.ofNat 64 (B1T8.decode (trits src)).1.length, errOf (B1T8.decode (trits src)).2,
+        bv (B1T8.decode (trits src)).1 ++ dst.drop (B1T8.decode (trits src)).1.length)) ∧
+    (dst.length < (B1T8.decode (trits src)).1.length → Gen.B1T6.b1t8.Decode dst src = none) :=
+  ⟨decode_eq dst src hlen, decode_panics dst src hlen⟩
 
 end Iota.Tie.C14
